@@ -818,4 +818,39 @@ func TestC14Regress(t *testing.T) {
 			}
 		}
 	}
+	// Line ends that hertz accepts although they are not CRLF (a bare LF ends a trailer line as it ends a
+	// header line): whatever it accepts when the handler reads the stream to its end it has to accept the
+	// same way when it drains the rest behind a handler that stopped early. After POST /up the requests
+	// GET /first and GET /second are served in this order, or the connection is closed; a request is never
+	// skipped.
+	for _, trailer := range []string{"\r\n", "\n", "X-Sum: 1\n\n", "X-Sum: 1\r\n\n", "X-Sum: 1\n\r\n", "X-Sum: 1\r\n\r\n"} {
+		for _, stop := range []int{-1, 0, 2, 5} {
+			for _, cuts := range [][]int{nil, {90}, {101}} {
+				raw := "POST /up HTTP/1.1\r\nHost: example.com\r\nTransfer-Encoding: chunked\r\nTrailer: X-Sum\r\n\r\n5\r\nhello\r\n0\r\n" + trailer +
+					"GET /first HTTP/1.1\r\nHost: example.com\r\n\r\nGET /second HTTP/1.1\r\nHost: example.com\r\n\r\n"
+				lg := &readLog{}
+				curLog, curProg = lg, Program{Sizes: []int{4096}, Stop: stop}
+				obs, res, _ := server(4096, 0).Run(sconn.Split([]byte(raw), cuts), sconn.EOF)
+				rec.Case(true, ev.HashString("trailer-line-ends", trailer, fmt.Sprint(stop, cuts)), "regress-trailer-line-ends")
+				bad := ""
+				if res.Panic != nil {
+					bad = fmt.Sprintf("panic: %v", res.Panic)
+				}
+				want := []string{"/up", "/first", "/second"}
+				for i, o := range obs {
+					if i >= len(want) || o.URI != want[i] {
+						bad = fmt.Sprintf("handler invocation #%d is %s %s, want %v in this order (or fewer and a closed connection): a request was skipped or invented (the stream gave %q, err=%v)", i, o.Method, o.URI, want, lg.data, lg.err)
+						break
+					}
+				}
+				if bad == "" && len(obs) < len(want) && !res.Closed {
+					bad = fmt.Sprintf("only %d of 3 requests were served and the connection was not closed", len(obs))
+				}
+				if bad != "" {
+					ev.Fail(prop, "regress", map[string]interface{}{"case": "trailer-line-ends", "trailer": trailer, "stop": stop, "cuts": cuts}, bad)
+					t.Errorf("trailer %q stop=%d cuts=%v: %s", trailer, stop, cuts, bad)
+				}
+			}
+		}
+	}
 }
